@@ -140,8 +140,13 @@ include hk
 
 theorem aCreateCtype_all (found : Option ConsRow) (t : Nat) (hn : found = none → N c.uuid) :
     All (QEvo N) (.txn .createCtype (aCreateCtype ctx c found t k)) :=
-  All.txn' _ _ (fun _ =>
-    ⟨QEvo.of_gcore rfl, aAfterType_all { ctx with ctCache := none } c k (fun ctx' h => hk ctx' h) found (some t) hn⟩)
+  All.txn' _ _ (fun db => by
+    unfold aCreateCtype
+    split
+    · exact ⟨QEvo.of_gcore rfl, all_same (fun db' =>
+        ⟨rfl, aAfterType_all { ctx with ctCache := some db'.ctypes } c k (fun ctx' h => hk ctx' h) found (some t) hn⟩)⟩
+    · exact ⟨QEvo.of_gcore rfl,
+        aAfterType_all { ctx with ctCache := none } c k (fun ctx' h => hk ctx' h) found (some t) hn⟩)
 
 theorem aGetCtype_all (found : Option ConsRow) (t : Nat) (hn : found = none → N c.uuid) :
     All (QEvo N) (.txn .getCtype (aGetCtype ctx c found t k)) :=
@@ -185,7 +190,11 @@ theorem aGetConsumer_all (hn : creatable ctx.mv c = true → N c.uuid) :
 
 theorem aCreateUser_all (hn : creatable ctx.mv c = true → N c.uuid) :
     All (QEvo N) (.txn .createUser (aCreateUser ctx c k)) :=
-  All.txn' _ _ (fun _ => ⟨QEvo.of_gcore rfl, aGetConsumer_all ctx c k hk hn⟩)
+  All.txn' _ _ (fun db => by
+    unfold aCreateUser
+    split
+    · exact ⟨QEvo.of_gcore rfl, all_same (fun _ => ⟨rfl, aGetConsumer_all ctx c k hk hn⟩)⟩
+    · exact ⟨QEvo.of_gcore rfl, aGetConsumer_all ctx c k hk hn⟩)
 
 theorem aGetUser_all (hn : creatable ctx.mv c = true → N c.uuid) :
     All (QEvo N) (.txn .getUser (aGetUser ctx c k)) :=
@@ -197,7 +206,11 @@ theorem aGetUser_all (hn : creatable ctx.mv c = true → N c.uuid) :
 
 theorem aCreateProject_all (hn : creatable ctx.mv c = true → N c.uuid) :
     All (QEvo N) (.txn .createProject (aCreateProject ctx c k)) :=
-  All.txn' _ _ (fun _ => ⟨QEvo.of_gcore rfl, aGetUser_all ctx c k hk hn⟩)
+  All.txn' _ _ (fun db => by
+    unfold aCreateProject
+    split
+    · exact ⟨QEvo.of_gcore rfl, all_same (fun _ => ⟨rfl, aGetUser_all ctx c k hk hn⟩)⟩
+    · exact ⟨QEvo.of_gcore rfl, aGetUser_all ctx c k hk hn⟩)
 
 theorem aGetProject_all (hn : creatable ctx.mv c = true → N c.uuid) :
     All (QEvo N) (.txn .getProject (aGetProject ctx c k)) :=
